@@ -327,7 +327,7 @@ Section Struct.
       [discriminate He|]. inversion He; subst items; clear He.
     unfold debug_cfg_of in Hc. rewrite Hd, Hta in Hc. cbn [bind] in Hc. rewrite Hl in Hc.
     cbn [bind] in Hc. inversion Hc; subst c; clear Hc.
-    destruct v as [| | | | | |vn xs| | | |]; try discriminate Hv.
+    destruct v as [| | | | | |vn xs| | | | |]; try discriminate Hv.
     cbn [dbg_value_ok dc_variants find variant_is vc_variant] in Hv.
     destruct vn as [vn|]; [discriminate Hv|]. cbn [vc_fields] in Hv.
     apply dbg_fields_ok_inv in Hv as [Hk Hat].
